@@ -75,7 +75,7 @@ theorem writeSnap_ok_inv (objSize : Nat → Option Nat) (w w' : DemoWriter) (tic
     w.lastTick < tick ∧
     ∃ (b b' : Builder) (bs : Bytes) (inner1 : Writer),
       addItems w.builder items = .ok b ∧
-      snapPayload objSize (w.isKeyframe tick) w.snap b.snap = .ok bs ∧
+      snapPayload objSize (w.isKeyframe tick) w.snap b.snap = .ok bs ∧ fitsChunk bs ∧
       w.inner.writeTick (w.isKeyframe tick) tick = (inner1, .ok) ∧
       inner1.writeData (if w.isKeyframe tick then .snapshot else .delta) bs = (w'.inner, .ok) ∧
       nextBuilder b.snap = some b' ∧
@@ -97,6 +97,9 @@ theorem writeSnap_ok_inv (objSize : Nat → Option Nat) (w w' : DemoWriter) (tic
       · split at h <;> cases h
       · rename_i bs hpay
         split at h
+        · split at h <;> cases h
+        rename_i hfit
+        split at h
         · cases h
         · rename_i inner1 hwt
           split at h
@@ -106,12 +109,12 @@ theorem writeSnap_ok_inv (objSize : Nat → Option Nat) (w w' : DemoWriter) (tic
             · cases h
             · rename_i b' hnb
               cases h
-              exact ⟨b, b', bs, inner1, hadd, hpay, hwt, hwd, hnb, rfl⟩
+              exact ⟨b, b', bs, inner1, hadd, hpay, Decidable.not_not.mp hfit, hwt, hwd, hnb, rfl⟩
 
 theorem writeSnap_preserves_inv (objSize : Nat → Option Nat) (w w' : DemoWriter) (hinv : w.Inv) (tick : Int)
     (items : List Item) (hv : ∀ it ∈ items, it.valid)
     (h : w.writeSnap objSize tick items = (w', .ok)) : w'.Inv := by
-  obtain ⟨_, b, b', bs, inner1, hadd, _, _, _, hnb, hw'⟩ := writeSnap_ok_inv objSize w w' tick items h
+  obtain ⟨_, b, b', bs, inner1, hadd, _, _, _, _, hnb, hw'⟩ := writeSnap_ok_inv objSize w w' tick items h
   have hb := addItems_inv items hv w.builder b hinv.binv hadd
   obtain ⟨b'', h1, h2, _, _⟩ := Builder.recycle_inv hb
   unfold nextBuilder at hnb
@@ -166,7 +169,7 @@ snapshot the writer keeps (`w'.snap`), which also becomes the reader's snapshot;
 theorem keyframe_step (hH : HuffmanRoundTrip) (objSize : Nat → Option Nat) (w w' : DemoWriter) (hinv : w.Inv)
     (tick : Int) (ht : Tw.Packer.inI32 tick) (items : List Item) (hv : ∀ it ∈ items, it.valid)
     (hk : w.isKeyframe tick = true) (h : w.writeSnap objSize tick items = (w', .ok)) :
-    ∃ enc, w'.inner.file = w.inner.file ++ enc ∧
+    ∃ enc, w'.inner.file = w.inner.file ++ enc ∧ 2 ≤ enc.length ∧
       ∀ (v : Version) (rest : Bytes) (s0 : Snap), v.num ≥ 5 →
         ∃ r1, DemoReader.nextChunk objSize
             { raw := { data := enc ++ rest, version := v, currentTick := w.inner.prevTick }, snap := s0 } =
@@ -176,14 +179,14 @@ theorem keyframe_step (hH : HuffmanRoundTrip) (objSize : Nat → Option Nat) (w 
             | some its => ({ raw := { data := rest, version := v, currentTick := w'.inner.prevTick },
                              snap := w'.snap }, .chunk (.snapshot its), [])
             | none => (r1, .error .panic, []) := by
-  obtain ⟨_, b, b', bs, inner1, hadd, hpay, hwt, hwd, hnb, hw'⟩ := writeSnap_ok_inv objSize w w' tick items h
+  obtain ⟨_, b, b', bs, inner1, hadd, hpay, hfit, hwt, hwd, hnb, hw'⟩ := writeSnap_ok_inv objSize w w' tick items h
   simp only [hk, if_true] at hpay hwt hwd
   have hb := addItems_inv items hv w.builder b hinv.binv hadd
   have hread := keyframe_payload_roundtrip hb hpay
-  obtain ⟨e1, hf1, _, hr1⟩ := writeChunk_ok hH w.inner inner1 (.tick tick true) ht hwt
-  obtain ⟨e2, hf2, _, hr2⟩ := writeChunk_ok hH inner1 w'.inner (.snapshot bs) trivial hwd
+  obtain ⟨e1, hf1, hl1, hr1⟩ := writeChunk_ok hH w.inner inner1 (.tick tick true) ht hwt
+  obtain ⟨e2, hf2, hl2, hr2⟩ := writeChunk_ok hH inner1 w'.inner (.snapshot bs) trivial hwd
   have hsnap : w'.snap = b.snap := by rw [hw']
-  refine ⟨e1 ++ e2, by rw [hf2, hf1, List.append_assoc], ?_⟩
+  refine ⟨e1 ++ e2, by rw [hf2, hf1, List.append_assoc], by rw [List.length_append]; omega, ?_⟩
   intro v rest s0 hv5
   have h1 := hr1 v (e2 ++ rest) hv5
   have h2 := hr2 v rest hv5
@@ -202,7 +205,7 @@ theorem delta_step (hH : HuffmanRoundTrip) (objSize : Nat → Option Nat) (w w' 
     (tick : Int) (ht : Tw.Packer.inI32 tick) (items : List Item) (hv : ∀ it ∈ items, it.valid)
     (hk : w.isKeyframe tick = false) (h : w.writeSnap objSize tick items = (w', .ok))
     (hag : SizesAgree w.snap.raw w'.snap.raw) (hok : SizesOk objSize w'.snap.raw.items) :
-    ∃ enc, w'.inner.file = w.inner.file ++ enc ∧
+    ∃ enc, w'.inner.file = w.inner.file ++ enc ∧ 2 ≤ enc.length ∧
       ∀ (v : Version) (rest : Bytes), v.num ≥ 5 →
         ∃ r1, DemoReader.nextChunk objSize
             { raw := { data := enc ++ rest, version := v, currentTick := w.inner.prevTick }, snap := w.snap } =
@@ -212,7 +215,7 @@ theorem delta_step (hH : HuffmanRoundTrip) (objSize : Nat → Option Nat) (w w' 
             | some its => ({ raw := { data := rest, version := v, currentTick := w'.inner.prevTick },
                              snap := w'.snap }, .chunk (.snapshot its), [])
             | none => (r1, .error .panic, []) := by
-  obtain ⟨_, b, b', bs, inner1, hadd, hpay, hwt, hwd, hnb, hw'⟩ := writeSnap_ok_inv objSize w w' tick items h
+  obtain ⟨_, b, b', bs, inner1, hadd, hpay, hfit, hwt, hwd, hnb, hw'⟩ := writeSnap_ok_inv objSize w w' tick items h
   simp only [hk, Bool.false_eq_true, if_false] at hpay hwt hwd
   have hb := addItems_inv items hv w.builder b hinv.binv hadd
   have hsnap : w'.snap = b.snap := by rw [hw']
@@ -230,9 +233,9 @@ theorem delta_step (hH : HuffmanRoundTrip) (objSize : Nat → Option Nat) (w w' 
     unfold Snap.readWithDelta
     rw [hap]
     simp only [buildFromRaw_of_extOk hb.ok, List.append_nil]
-  obtain ⟨e1, hf1, _, hr1⟩ := writeChunk_ok hH w.inner inner1 (.tick tick false) ht hwt
-  obtain ⟨e2, hf2, _, hr2⟩ := writeChunk_ok hH inner1 w'.inner (.delta bs) trivial hwd
-  refine ⟨e1 ++ e2, by rw [hf2, hf1, List.append_assoc], ?_⟩
+  obtain ⟨e1, hf1, hl1, hr1⟩ := writeChunk_ok hH w.inner inner1 (.tick tick false) ht hwt
+  obtain ⟨e2, hf2, hl2, hr2⟩ := writeChunk_ok hH inner1 w'.inner (.delta bs) trivial hwd
+  refine ⟨e1 ++ e2, by rw [hf2, hf1, List.append_assoc], by rw [List.length_append]; omega, ?_⟩
   intro v rest hv5
   have h1 := hr1 v (e2 ++ rest) hv5
   have h2 := hr2 v rest hv5
@@ -246,7 +249,7 @@ multiple of four bytes; the reader's snapshot is untouched. -/
 theorem msg_step (hH : HuffmanRoundTrip) (objSize : Nat → Option Nat) (w w' : DemoWriter) (msg : Bytes)
     (h : w.writeMsg msg = (w', .ok)) :
     w'.snap = w.snap ∧ w'.builder = w.builder ∧ w'.lastTick = w.lastTick ∧ w'.lastKeyframe = w.lastKeyframe ∧
-    ∃ enc, w'.inner.file = w.inner.file ++ enc ∧
+    ∃ enc, w'.inner.file = w.inner.file ++ enc ∧ 1 ≤ enc.length ∧
       ∀ (v : Version) (rest : Bytes) (s0 : Snap), v.num ≥ 5 →
         DemoReader.nextChunk objSize
             { raw := { data := enc ++ rest, version := v, currentTick := w.inner.prevTick }, snap := s0 } =
@@ -257,11 +260,13 @@ theorem msg_step (hH : HuffmanRoundTrip) (objSize : Nat → Option Nat) (w w' : 
   · cases h
   · split at h
     · cases h
+    split at h
+    · cases h
     · rename_i inner' hwm
       cases h
       refine ⟨rfl, rfl, rfl, rfl, ?_⟩
-      obtain ⟨enc, hf, _, hr⟩ := writeChunk_ok hH w.inner inner' (.message msg) trivial hwm
-      refine ⟨enc, hf, ?_⟩
+      obtain ⟨enc, hf, hl, hr⟩ := writeChunk_ok hH w.inner inner' (.message msg) trivial hwm
+      refine ⟨enc, hf, hl, ?_⟩
       intro v rest s0 hv5
       simp only [DemoReader.nextChunk, hr v rest hv5, Chunk.padded, List.map_nil]
 
@@ -272,6 +277,8 @@ theorem writeMsg_preserves_inv (w w' : DemoWriter) (msg : Bytes) (hinv : w.Inv)
   split at h
   · cases h
   · split at h
+    · cases h
+    split at h
     · cases h
     · cases h
       exact ⟨hinv.builder, hinv.binv, hinv.sok⟩
@@ -320,10 +327,11 @@ def DemoWriter.run (objSize : Nat → Option Nat) (w : DemoWriter) : List Op →
     let (w2, rs) := DemoWriter.run objSize w1 rest
     (w2, r :: rs)
 
-/-- two chunk lists agree up to the order of the objects inside each snapshot -/
+/-- two chunk lists agree up to the order of the objects inside each snapshot: the same chunks, the
+same object *sets* -/
 def chunksAgree : List HChunk → List HChunk → Prop
   | [], [] => True
-  | .snapshot a :: r, .snapshot b :: r' => a.Perm b ∧ chunksAgree r r'
+  | .snapshot a :: r, .snapshot b :: r' => (∀ it, it ∈ a ↔ it ∈ b) ∧ chunksAgree r r'
   | c :: r, c' :: r' => c = c' ∧ chunksAgree r r'
   | _, _ => False
 
